@@ -1,7 +1,7 @@
 # Which sidecars decide which property, and what the check claims.  bin/mkmanifest turns this into MANIFEST.json.
 PROPS = {
     "C14": {
-        "sidecars": ["c14_lines.py", "c14_worder.py", "c14_realcode.py", "c14_logical.py"],
+        "sidecars": ["c14_lines.py", "c14_worder.py", "c14_realcode.py", "c14_logical.py", "c14_caching.py"],
         "level": "proof",
         "claim": "Proof level for the arithmetic clauses of the statement: the line index built by SourceLinesAdapter is exactly the "
                  "positions after each newline, offset->line and line->offset are mutually inverse (lemmas over the accessor contracts), "
@@ -9,7 +9,8 @@ PROPS = {
                  "_find_last_non_space_char) return the maximal identifier-character run / nearest non-blank position, with termination measures. "
                  "simplify.real_code keeps the length of the text (every offset found in the simplified text is an offset of the source), given what the regex scans return "
                  "(assumed, checked natively); the logical lines returned by _CustomGenerator.__call__ are increasing, disjoint ranges inside the text that start on a non-blank line and "
-                 "cover every non-blank line, whatever the per-line scan decides (termination included). Tokenizer-agreement clauses (ignored regions, logical lines, primaries) are exhaustive small-scope stand-ins only.",
+                 "cover every non-blank line, whatever the per-line scan decides (termination included), and CachingLogicalLineFinder.logical_line_in returns exactly the range containing the line "
+                 "(given marks that come from such a partition: the cache initialiser is checked natively only). Tokenizer-agreement clauses (ignored regions, logical lines, primaries) are exhaustive small-scope stand-ins only.",
         "note": "bisect.bisect assumed to be bisect_right on sorted input (external contract); str.index modelled by its defining property; "
                 "characters as code points; termination of the while loop not proved.",
         "undecided": ["string/comment regions == tokenizer tokens for every text (regex; bounded only)",
